@@ -56,6 +56,21 @@ struct Drv {
                 fn(a, b);
             }
         }
+        // third pass: every lane holds the same operands.  Emulations that branch on a property of the whole vector
+        // ("all lanes small": one cheap instruction instead of the general path) are only reached this way.
+        if (N > 1) {
+            const std::size_t step = n > 70000 ? n / 70000 + 1 : 1;
+            for (std::size_t i = 0; i < n; i += step) {
+                A a, b;
+                for (unsigned j = 0; j < N; ++j) {
+                    a[j] = P[i].first;
+                    b[j] = P[i].second;
+                }
+                opaque(a);
+                opaque(b);
+                fn(a, b);
+            }
+        }
     }
 
     template<class Fn>
@@ -66,6 +81,15 @@ struct Drv {
             for (std::size_t base = 0; base < n; base += N) {
                 A a;
                 for (unsigned j = 0; j < N; ++j) a[j] = U1[(base + j + off) % n];
+                opaque(a);
+                fn(a);
+            }
+        }
+        if (N > 1) {    // uniform vectors (see for_pair_batches)
+            const std::size_t step = n > 70000 ? n / 70000 + 1 : 1;
+            for (std::size_t i = 0; i < n; i += step) {
+                A a;
+                for (unsigned j = 0; j < N; ++j) a[j] = U1[i];
                 opaque(a);
                 fn(a);
             }
